@@ -363,7 +363,7 @@ impl Prop for C18 {
     fn runs(&self, t: Tier) -> u64 {
         match t {
             Tier::Quick => 3_000,
-            Tier::Thorough => 150_000,
+            Tier::Thorough => 600_000,
         }
     }
     fn nontrivial_rule(&self) -> &'static str {
